@@ -46,6 +46,9 @@ class ScopeMetrics:
             else f"[{self.trace_id}] [{self.identifier}]"
         )
         self._logger: Logger = logger or getLogger(name=scope)
+        if parent is not None and parent._completed.done():
+            parent = None  # already completed scope can't be completed again, use as detached
+
         self._parent: Self | None = parent if parent else None
         self._metrics: dict[type[State], State] = {}
         self._nested: list[ScopeMetrics] = []
